@@ -20,7 +20,7 @@ from ..seq import Layouts, UNKNOWN, show
 from . import C03, C15
 
 REL = "inference/mcmc/parallel.py"
-FLOORS = {"task-exhaustive": 4, "reply-balance": 3, "kahn-discipline": 2, "swap-form": 3,
+FLOORS = {"task-exhaustive": 4, "reply-balance": 3, "kahn-discipline": 2, "swap-form": 3, "ladder-source": 1,
           "exchange-pair": 3, "equal-steps": 3, "collect-shutdown": 3,
           "pair-disjoint": 4}
 
@@ -266,6 +266,7 @@ def run(prog, tier):
     # ---------------------------------------------------------------- swap-form
     c, sw = prog.method("ParallelTempering", "swap")
     obs.extend(_swap_form(prog, mi, pt, c, sw))
+    obs.append(_ladder_source(prog, mi, pt, tp))
 
     # ---------------------------------------------------------------- pair-disjoint
     obs.extend(_pair_disjoint(prog))
@@ -448,6 +449,33 @@ def _pair_disjoint(prog):
     out.append(struct_ob("pair-disjoint", qual(c3_, sw) + "[source]", ok,
                          f"swap must take its proposed pairs from tight_pairs() or uniform_pairs(): {srcs}", REL, sw.lineno))
     return out
+
+
+def _ladder_source(prog, mi, pt, tp):
+    """The inverse temperatures in the swap exponent must be the numbers the chains themselves scale their stored
+    log-probabilities with: the worker re-expresses a received log-probability with one attribute of its chain, and the ladder
+    the controller keeps must be read from that very attribute of each chain, in chain order."""
+    init = pt.methods["__init__"]
+    chains = init.args.args[1].arg
+    # the attribute the worker scales with: the store into the chain's last log-probability
+    cparam = tp.args.args[0].arg
+    attrs = set()
+    for st in ast.walk(tp):
+        if isinstance(st, ast.Assign) and isinstance(st.targets[0], ast.Subscript) and U(st.targets[0].value).startswith(cparam + "."):
+            for n in ast.walk(st.value):
+                if isinstance(n, ast.Attribute) and isinstance(n.value, ast.Name) and n.value.id == cparam:
+                    attrs.add(n.attr)
+    if len(attrs) != 1:
+        raise AnalysisError(f"anchor vanished: the worker's re-scaling of a received log-probability ({sorted(attrs)})")
+    attr = next(iter(attrs))
+    lay = Layouts(init, prog, mi, pt).state.get("self.inv_temps")
+    want = (("each", ("iter", chains), f"va0.{attr}"),)
+    ok = lay == want
+    return struct_ob("ladder-source", qual(pt, init), ok,
+                     f"self.inv_temps must be [chain.{attr} for chain in {chains}] - the factor every chain (and the worker, when it "
+                     f"stores a received point) scales its log-probabilities with; it is {show(lay) if lay not in (None, UNKNOWN) else lay}: a "
+                     f"value kept in another attribute is only tied to `{attr}` where both happen to be set together",
+                     REL, init.lineno, slots={"worker_attribute": attr, "layout": show(lay) if lay not in (None, UNKNOWN) else str(lay)})
 
 
 def _swap_form(prog, mi, pt, c, sw):
